@@ -27,7 +27,7 @@
 (*                     over the limit);                                    *)
 (*   FinalIndependent  the returned outcomes are a function of the         *)
 (*                     exchanges, not of the Deliver steps (C02);          *)
-(*   NoOverread, OneReplyPerRequest.                                       *)
+(*   NoOverread, OneReplyPerRequest, DirtyIsGivenUp, UntilCloseSawEof.     *)
 (*                                                                         *)
 (* Deliberately unconstrained: default header fields the client adds       *)
 (* (User-Agent, Content-Type default, Content-Length / Transfer-Encoding:  *)
@@ -196,14 +196,15 @@ VARIABLES xs,      \* abstract exchanges [headEnd, end, closeAfter, reqClose, un
           stream,  \* response streaming mode
           xn,       \* exchange in progress / next to start (1 .. Len(xs)+1)
           phase,   \* "idle" (between exchanges) | "sent" (request written) | "replied" (peer has answered)
-          conns,   \* connections: [open, avail, delivered, rd, base, peerClosed, eofSeen, mustClose]
+          conns,   \* connections: [open, avail, delivered, rd, base, peerClosed, eofSeen, mustClose, untilClose]
           cur,     \* connection of the exchange in progress (0: none)
           ret      \* outcomes returned so far: "ok" | "tooLarge"
 
 vars == <<xs, stream, xn, phase, conns, cur, ret>>
 
 N == Len(xs)
-Fresh == [open |-> TRUE, avail |-> 0, delivered |-> 0, rd |-> 0, base |-> 0, peerClosed |-> FALSE, eofSeen |-> FALSE, mustClose |-> FALSE]
+Fresh == [open |-> TRUE, avail |-> 0, delivered |-> 0, rd |-> 0, base |-> 0, peerClosed |-> FALSE, eofSeen |-> FALSE, mustClose |-> FALSE,
+          untilClose |-> FALSE]
 
 InitWith(es, st) == /\ xs = es /\ stream = st /\ xn = 1 /\ phase = "idle" /\ conns = << >> /\ cur = 0 /\ ret = << >>
 
@@ -225,7 +226,8 @@ Send(c) == /\ phase = "idle" /\ xn <= N /\ Usable(c)
 PeerReply == /\ phase = "sent"
              /\ conns' = [conns EXCEPT ![cur].base = conns[cur].avail,
                                        ![cur].avail = conns[cur].avail + xs[xn].end,
-                                       ![cur].peerClosed = xs[xn].closeAfter]
+                                       ![cur].peerClosed = xs[xn].closeAfter,
+                                       ![cur].untilClose = xs[xn].untilClose]
              /\ phase' = "replied"
              /\ UNCHANGED <<xs, stream, xn, cur, ret>>
 
@@ -288,6 +290,10 @@ OneReplyPerRequest == SumAvail(Len(conns)) = SumEnd(IF phase = "replied" THEN xn
 \* C02: the outcomes are a function of the exchanges (the Deliver steps do not matter)
 FinalIndependent == /\ Len(ret) = xn - 1
                     /\ \A i \in DOMAIN ret : ret[i] \in Outcomes(xs[i])
+\* a connection on which bytes of a response were left unread (a refused body) is given up
+DirtyIsGivenUp == \A c \in DOMAIN conns : (c # cur /\ conns[c].rd < conns[c].avail) => conns[c].mustClose
+\* a read-until-close body has only been returned complete after the end of the stream was seen
+UntilCloseSawEof == \A c \in DOMAIN conns : (conns[c].untilClose /\ conns[c].avail > 0 /\ conns[c].rd = conns[c].avail) => conns[c].eofSeen
 \* a connection the peer has closed is never left usable
 ClosedNotUsable == \A c \in DOMAIN conns : (conns[c].peerClosed /\ c # cur) => ~Usable(c)
 =============================================================================
